@@ -136,11 +136,11 @@ def judge (id : String) (cs : Case) (goObs : List String) : IO Unit := do
   let spec := Spec.Legacy.ofInput cs.num cs.coll.splitBy cs.cfgs cs.results
   let setting : Spec.Legacy.Settings := { alpha := cs.coll.alpha, order := cs.coll.order, geo := cs.coll.addGeoMean, T := cs.T }
   let mline (l : Line) : Bool := l.words.contains "m"
-  let stats (k : String) : String :=
-    Spec.Legacy.judgeAll ((call k).filter mline |>.map fun l =>
+  let ims (k : String) : List Spec.Legacy.ImplMetric := (call k).filter mline |>.map fun l =>
       ({ cfg := unhex (l.getD "cfg"), group := unhex (l.getD "g"), bench := unhex (l.getD "b"), unit := unhex (l.getD "u"),
          rv := (splitD (l.getD "rv") ",").map bitsOf, min := bitsOf (l.getD "min"), mean := bitsOf (l.getD "mean"),
-         max := bitsOf (l.getD "max") } : Spec.Legacy.ImplMetric)) spec
+         max := bitsOf (l.getD "max") } : Spec.Legacy.ImplMetric)
+  let stats (k : String) : String := Spec.Legacy.judgeAll (ims k) spec
   let parseMs (s : String) : List Spec.Legacy.ImplCell := (splitD s ";").map fun e =>
     match e.splitOn ":" with
     | [u, n, rv, mn, me, mx] => { unit := unhex u, nvals := n.toNat?.getD 0, rv := bitsDot rv, min := bitsOf mn, mean := bitsOf me, max := bitsOf mx }
@@ -155,7 +155,7 @@ def judge (id : String) (cs : Case) (goObs : List String) : IO Unit := do
         rows := rows.map fun r => { bench := unhex (r.getD "b"), group := unhex (r.getD "g"), cells := parseMs (r.getD "ms"),
                                     pd := bitsOf (r.getD "pd"), delta := unhexString (r.getD "d"), note := unhexString (r.getD "n"),
                                     change := (r.getD "c").toInt?.getD 0 } }
-    Spec.Legacy.judgeTables its spec setting
+    Spec.Legacy.judgeTables its (ims k) spec setting
   let strip (l : Line) : List String := l.words.filter fun w => !(w.startsWith "call=")
   let same := (call "1").map strip == (call "2").map strip
   IO.println s!"spec {id} stats1={stats "1"} stats2={stats "2"} tabs1={tabs "1"} tabs2={tabs "2"} same={if same then 1 else 0}"
